@@ -18,7 +18,7 @@ def main(tier):
     specs = wcommon.valid_specs(tier) + [s for s in wcommon.reject_specs(tier) if 'then arbitrary' in s['name'] or 'zero-length' in s['name']]
     t0 = time.time()
     results = wrun.run_all(specs)
-    keep = ('no C assert', 'next-sample cursor', 'has_failure stays 0', 'last file / last directory', 'a rejected call leaves the writer cursor',
+    keep = ('no C assert', 'representation invariant Inv_W', 'next-sample cursor', 'has_failure stays 0', 'last file / last directory', 'a rejected call leaves the writer cursor',
             'a zero-length call leaves')
     tot = wcommon.report(rep, specs, results, lambda nm: nm.startswith(keep))
     rep.extra['write_path'] = dict(configurations=len(specs), paths=tot['paths'], queries=tot['q'], solver_s=round(tot['s'], 1), wall_s=round(time.time() - t0, 1))
